@@ -1,7 +1,8 @@
 #!/bin/bash
 # Build the whole framework from files on disk (offline): Gen from /repo, full .vo build, driver.
-cd "$(dirname "$0")"
-export PYTHONPATH=/verif/harness:${VERIF_REPO:-/repo}
+V="$(cd "$(dirname "$0")" && pwd)"
+cd "$V"
+export PYTHONPATH=$V/harness:${VERIF_REPO:-/repo}
 export PYTHONHASHSEED=0 PYTHONDONTWRITEBYTECODE=1
 /venv/bin/python -W ignore - <<'PY' 2> >(grep -v 'WARNING conda' >&2)
 import sys, framework
